@@ -49,11 +49,15 @@ impl Net {
 pub struct Ctx {
     pub net: Arc<Net>,
     pub proto: SupportProtocols,
+    /// a control handle of a network service that is never run: open / close protocol requests go nowhere
+    pub control: ckb_network::ServiceControl,
 }
 
 impl Ctx {
     pub fn new(net: Arc<Net>, proto: SupportProtocols) -> Arc<dyn CKBProtocolContext + Sync> {
-        Arc::new(Ctx { net, proto })
+        let service = ckb_network::ServiceBuilder::default().build(());
+        let control: ckb_network::ServiceControl = service.control().clone().into();
+        Arc::new(Ctx { net, proto, control })
     }
 }
 
@@ -181,6 +185,9 @@ impl CKBProtocolContext for Ctx {
     }
     fn protocol_id(&self) -> ProtocolId {
         self.proto.protocol_id()
+    }
+    fn p2p_control(&self) -> Option<&ckb_network::ServiceControl> {
+        Some(&self.control)
     }
 }
 
